@@ -390,6 +390,10 @@ func genScalarAPI(e *emitter, r *rng, n int) {
 		new(big.Int).Lsh(big1, 255), new(big.Int).Mod(bigR, bigN)} {
 		edge = append(edge, showL(montN(v)))
 	}
+	// and as *stored* limbs: values whose Montgomery representation is 1, 2, a single high limb, all-ones in the low limb
+	for _, l := range []limbs{{1, 0, 0, 0}, {2, 0, 0, 0}, {0, 1, 0, 0}, {0, 0, 0, 1}, {^uint64(0), 0, 0, 0}, {0, 0, 0, 1 << 63}} {
+		edge = append(edge, showL(l))
+	}
 	for _, a := range edge {
 		for _, op := range []string{"SC.addself", "SC.subself", "SC.mulself", "SC.sq", "SC.inv", "SC.powself", "SC.bits", "SC.enc", "SC.iszero", "SC.isone"} {
 			e.line(op, a)
@@ -564,7 +568,7 @@ func genPoints(e *emitter, r *rng, n int, withMul int) {
 	e.line("G.consts")
 	for guard := 0; e.n < n && guard < 200*n+1000; guard++ {
 		p, q := r.pointPair()
-		switch r.intn(14) {
+		switch r.intn(15) {
 		case 0, 1, 2:
 			e.line("PT.add", argsP(p), argsP(q))
 		case 3:
@@ -585,6 +589,9 @@ func genPoints(e *emitter, r *rng, n int, withMul int) {
 			}
 		case 11, 12:
 			e.line("PT.enc", argsP(p))
+		case 14:
+			// operands that an API call turned into the identity while they held another point
+			e.line("PT.viaid", argsP(p), argsP(q), []string{"identity", "mulnil", "decode00"}[r.intn(3)])
 		case 13:
 			// raw garbage coordinates: only the model/implementation agreement is checked
 			e.line("PT.add", argsP(rawPt{r.feRaw(), r.feRaw(), r.feRaw()}), argsP(q))
@@ -1183,7 +1190,7 @@ var subFamilies = map[string]subFamily{
 	"cmp":      {"scalarapi", []string{"SC.eq", "SC.iszero", "SC.isone", "SC.leq", "SC.csel"}},
 	"scarith":  {"scalarapi", []string{"SC.add", "SC.sub", "SC.mul", "SC.addself", "SC.subself", "SC.mulself", "SC.sq", "SC.inv", "SC.set", "SC.pow", "SC.powself", "SC.setu64", "SC.zero", "SC.one", "SC.minusone"}},
 	"scenc":    {"scalarapi", []string{"SC.enc", "SC.dec", "SC.unmarshal", "SC.dechex"}},
-	"grouplaw": {"points", []string{"PT.add", "PT.addnil", "PT.addself", "PT.dbl", "PT.neg", "PT.sub", "PT.subnil", "PT.subself"}},
+	"grouplaw": {"points", []string{"PT.viaid", "PT.add", "PT.addnil", "PT.addself", "PT.dbl", "PT.neg", "PT.sub", "PT.subnil", "PT.subself"}},
 	"eq":       {"points", []string{"PT.eq", "PT.eqself", "PT.isid"}},
 	"enc":      {"points", []string{"PT.enc", "G.base", "G.consts", "G.order"}},
 	"sfcmp":    {"scalarfield", []string{"S.eq", "S.iszero", "S.cmov"}},
